@@ -50,7 +50,9 @@ def mergeStep (range : Option Range) (s : MergeSt) : MergeSt :=
     let vals := if s.vals.length > old.raw then s.vals.drop old.raw else []
     let s1 := nextOld { s with vals := vals }
     -- a part without drawn points carries no cut or trim (fix in /repo)
-    let pt : Part := if old.usr = 0 then { old with cut := 0, trim := 0 } else old
+    -- … and a part for which this dimension has no data left draws nothing (fix in /repo: such parts used to
+    -- stay drawn while the part the data ended in was cut short)
+    let pt : Part := { old with usr := 0, cut := 0, trim := 0 }
     { s1 with out := pushPart s.out pt }
   else
     let usr := if s.vals.length < old.usr then s.vals.length else old.usr
@@ -59,7 +61,8 @@ def mergeStep (range : Option Range) (s : MergeSt) : MergeSt :=
     let pt1a : Part := { pt0 with cut := if pt0.usr ≠ 0 ∧ old.cut > pt0.cut then old.cut else pt0.cut }
     -- the trim of the old part belongs to the new part when that ends on the old part's last drawn point
     -- (fix in /repo: it used to be lost for a partial segment and taken over for an earlier end)
-    let pt1 : Part := { pt1a with trim := if pt1a.usr ≠ 0 ∧ pt1a.usr = usr ∧ old.trim > pt1a.trim then old.trim else pt1a.trim }
+    -- (… and not when the data of this dimension ends inside the drawn points of the old part: fix in /repo)
+    let pt1 : Part := { pt1a with trim := if pt1a.usr ≠ 0 ∧ ¬ (s.vals.length < old.usr) ∧ pt1a.usr = usr ∧ old.trim > pt1a.trim then old.trim else pt1a.trim }
     if pt1.raw < old.raw then
       -- partial segment: the rest of the old part stays current
       let old' : Part := { old with raw := old.raw - pt1.raw, usr := usr - pt1.raw, cut := 0 }
